@@ -62,6 +62,16 @@ func c08Variant(i, v int) string {
 		return fmt.Sprintf("gf%d(1, 2)\n", other)
 	case 20: // … with one argument fewer
 		return fmt.Sprintf("gf%d(1)\n", other)
+	case 21: // (project mode) the entry file: requires f1 and uses its global
+		return "require(\"f1\")\nprint(gb1)\n"
+	case 22: // … f1: defines that global, uses one of sub/f2
+		return "gb1 = 1\nprint(gd2)\n"
+	case 23:
+		return "gd2 = 1\n"
+	case 24: // one require that never resolves, one that resolves once f1 exists
+		return "local m = require(\"nothere\")\nlocal n = require(\"f1\")\nprint(m, n)\n"
+	case 25:
+		return "return {}\n"
 	case 12: // the empty file
 		return ""
 	case 8: // a second clean text
@@ -185,6 +195,26 @@ func runC08(res *lib.Result, tier string, seed int64, args []string) error {
 			disk["f0.lua"], files["f0.lua"] = 17, c08Variant(0, 17)
 			disk["f1.lua"], files["f1.lua"] = 0, c08Variant(1, 0)
 			disk["sub/f2.lua"], files["sub/f2.lua"] = 18, c08Variant(2, 18)
+		}
+		if hi%16 == 8 {
+			// project mode (luahelper.json names f0.lua as the entry file): f0 requires f1, which does not exist yet; the
+			// script creates it — the project of f0 has to be analysed again, f1 belongs to it
+			for n := range disk {
+				delete(disk, n)
+				delete(files, n)
+			}
+			files["luahelper.json"] = "{\"ShowWarnFlag\":1,\"ProjectFiles\":[\"f0.lua\"]}"
+			disk["f0.lua"], files["f0.lua"] = 21, c08Variant(0, 21)
+			disk["sub/f2.lua"], files["sub/f2.lua"] = 23, c08Variant(2, 23)
+		}
+		if hi%16 == 9 {
+			// f0 requires a module that never exists and f1, which the script creates: the diagnostic of the first require stays
+			for n := range disk {
+				delete(disk, n)
+				delete(files, n)
+			}
+			disk["f0.lua"], files["f0.lua"] = 24, c08Variant(0, 24)
+			disk["sub/f2.lua"], files["sub/f2.lua"] = 0, c08Variant(2, 0)
 		}
 		if hi%16 == 6 {
 			// two files declare the same class; the script moves one declaration down a line
@@ -315,6 +345,12 @@ func runC08(res *lib.Result, tier string, seed int64, args []string) error {
 		if hi%16 == 12 {
 			script = []scripted{{0, 9, 2}, {0, 9, 16}}
 		}
+		if hi%16 == 8 {
+			script = []scripted{{1, 9, 22}}
+		}
+		if hi%16 == 9 {
+			script = []scripted{{1, 9, 25}}
+		}
 		if hi%16 == 14 {
 			script = []scripted{{0, 0, 0}, {0, 2, 19}, {0, 7, 0}, {2, 9, 20}}
 		}
@@ -336,7 +372,7 @@ func runC08(res *lib.Result, tier string, seed int64, args []string) error {
 			}
 			script = []scripted{{a, 0, 0}, {a, 2, []int{1, 6, 7}[r.Intn(3)]}, {a, 7, 0}, {b, 0, 0}, {b, 2, []int{0, 8}[r.Intn(2)]}, {b, 5, 0}}
 		}
-		if hi%8 == 5 || hi%16 == 1 || hi%16 == 2 || k1Hist || hi%16 == 6 || hi%16 == 0 || hi%16 == 4 || hi%16 == 12 || hi%16 == 14 {
+		if hi%8 == 5 || hi%16 == 1 || hi%16 == 2 || k1Hist || hi%16 == 6 || hi%16 == 0 || hi%16 == 4 || hi%16 == 12 || hi%16 == 14 || hi%16 == 8 || hi%16 == 9 {
 			nEv = r.Intn(2) // the comparison with a fresh server follows (almost) directly
 		} else if hi%3 == 1 {
 			nEv = 1 + r.Intn(4) // short histories: the state right after an event is compared with a fresh server
